@@ -156,4 +156,17 @@ DevOp(s, r) ==
                            !.ports = IF r.id \in {0, 1, 2} THEN @
                                      ELSE [a \in { x \in DOMAIN @ : @[x] # r.id } |-> @[a]]])
 
+\* ---- the observation of a specification step in the vocabulary of the harness projection (model checking)
+\* the observation of a step  s --> x  in the vocabulary of the harness projection
+MemDiff(s, t) == { <<a, Rd(t, a).v, Rd(t, a).m>> : a \in { a \in (DOMAIN t.memw) \cup (DOMAIN s.memw) : Rd(t, a) # Rd(s, a) } }
+RECURSIVE SetToSeq(_)
+SetToSeq(SS) == IF SS = {} THEN <<>> ELSE LET x == CHOOSE x \in SS : TRUE IN <<x>> \o SetToSeq(SS \ {x})
+ObsvOfEnv(s, x, jenv) ==
+  [res |-> x.out, env |-> jenv,
+   proj |-> [pc |-> x.st.pc, psr |-> x.st.psr, regs |-> [i \in 1..8 |-> <<x.st.reg[i].v, x.st.reg[i].m>>],
+             obs |-> SetToSeq({ <<a, x.st.obs[a]>> : a \in DOMAIN x.st.obs }),
+             memdiff |-> SetToSeq(MemDiff(s, x.st)), kbd |-> x.st.kbd, disp |-> x.st.disp,
+             icount |-> x.st.icount, fno |-> x.st.fno]]
+ObsvOf(s, x) == ObsvOfEnv(s, x, [lockK |-> 0, lockD |-> 0, ints |-> <<>>, draws |-> <<>>])
+
 =============================================================================
